@@ -265,6 +265,13 @@ def gen_round(rng, names):
             o.pop(k, None)
         return o
 
+    # a table-rendered footnote that closes the table with an override (page / body border_last) in one document and
+    # without any override ('' settings, footnote on every page) in another: the override must not stay in the
+    # shared footnote object
+    p_fn_all = add("RTFPage", nrow=rng.randint(4, 6), page_footnote="all", border_last="")
+    b_nolast = add("RTFBody", border_last="")
+    doc("footnote-closing-override", "single", [(fLong, b_wl)], dict(flat=[h_wl2]), page=p_small, footnote=fn_tab)
+    doc("footnote-closing-none", "single", [(fLong, b_nolast)], dict(flat=[h_wl2]), page=p_fn_all, footnote=fn_tab)
     doc("plain", "single", [(fA, b_wl)], **sprinkle())
     doc("plain-shared-body-other-ncol", "single", [(fB, b_wl)], **sprinkle())
     doc("plain-shared-body-third-ncol", "single", [(fC, b_wl)], rng.choice(["default", dict(flat=[h_wl])]), **sprinkle())
